@@ -27,6 +27,7 @@ type Case struct {
 	Local    int              `json:"local_zone_hours,omitempty"` // the process's local time zone during the case (UTC+h); 0 = UTC
 	Lock     bool             `json:"lockstep_readers,omitempty"` // C09 concurrent mode: one consumer reads the outputs of all calls in turn
 	Late     bool             `json:"late_feed,omitempty"` // pipelines: the producers start only after the constructor (Compute) has returned
+	Outc     bool             `json:"with_outcome,omitempty"` // C03 strategies: also run through strategy.ComputeWithOutcome
 	Nbr      bool             `json:"neighbour,omitempty"` // C03: an unrelated helper pipeline runs in the same simulation
 	Pub      bool             `json:"public_fields_only,omitempty"` // scaled configurations touch exported fields only (what a user can assign after construction)
 	Repeat   int              `json:"repeat_date,omitempty"` // reports: the snapshot at this position (1-based, >= 2) carries the date of the one before it
@@ -346,6 +347,9 @@ func workerMain() int {
 		}
 		if prop == "C03" && rng.Intn(8) == 0 {
 			c.Nbr = true
+		}
+		if prop == "C03" && c.Family == "strat" && rng.Intn(4) == 0 {
+			c.Outc = true
 		}
 		if fsBased[prop] && rng.Intn(8) == 0 {
 			c.Base = 1 + rng.Intn(len(baseNames)-1) // a directory whose name is not made of letters and digits only
